@@ -443,7 +443,8 @@ def c09(res):
 def c20(res):
     return generic(res, "C20", "Properties/C20.v", [SAN(50, 50), ATTRS("link"), TOK(10, 60), ("corr-style", ["style"])], "C20",
                    "escape/unescape, the rel additions and the URL normal form", RULE_LOOP + "; oracle: Sanitize(Sanitize(x)) = Sanitize(x) on every generated case of the stated policy class",
-                   thorough_runs=[SAN(300, 100), ATTRS_T("link"), TOK(40, 200)])
+                   thorough_runs=[SAN(300, 100), ATTRS_T("link"), TOK(40, 200), ("corr-style", ["style", "-n", "3000"])],
+                   hyp_keys=("url_hypothesis_failures", "style_stability_failures"))
 
 
 @check("C17")
